@@ -26,6 +26,12 @@ CLAIMS = {
         "Decides on every path of every public parser function: no success return rests on an end-of-input look-ahead answer unless the parked I/O error was consulted afterwards; plus who-may-construct SyntaxError, the eof tokens and no-dropped-error rules. It decides this clause, not item equality with the fault-free run.",
         "DESIGN.md §4 C04",
     ),
+    "C05": (
+        "other",
+        "instance call-graph SCC analysis; taint analysis of declared numbers with guard-dominance discharge; allocation-size taint; loop progress rule; panic-site inventory with discharge classes",
+        "Decides: the workspace's instance call graph is acyclic (bounded stack); every overflow/division assert and every subtraction in parser-reachable code either has only measures of consumed input as operands or is discharged by a dominating guard, a bounded-result callee, or a listed bound; no allocation is sized by a declared number; every loop has a progress statement on every cycle; every panic-capable construct (unwrap, indexing, advance, explicit panic) is discharged by a class (scanned offsets, digits, pop-after-push, ...) or listed. Wall time, heap constants, allocator aborts and termination of Renumber::transfer on cyclic graphs are not decided.",
+        "DESIGN.md §4 C05",
+    ),
     "C06": (
         "other",
         "guard-dominance, def-use and control-dependence rules over MIR; affine path execution of the header bound chain; frozen oracle tables for defining positions and section counters",
